@@ -73,6 +73,11 @@ ops (``args`` in parentheses, extra fields after the arrow):
 (the job that was rejected aborts like a crashed client: open holds are released, it ends FAILED).
 ``error``: traceback text of any other exception; the history stops there.
 
+Scripted plans (``plan.scripted``, harness/sched_families.py): the programs carry ``versions`` and the
+plan lists what happens between the phases; a ``["wait"]`` action lets a turn of a job pass without a
+request to the director (a long-running command).  Nothing is mutated at random in such a plan; the
+interleaving of ticks and job actions stays random.
+
 Deviations from the real system (all deliberate, none changes what the real code does):
 * ``Scheduler.start_times/stop_times`` are filled with a logical clock instead of
   ``time.monotonic_ns()`` (same pruning logic as ``record_run_started/stopped``), so that
@@ -287,6 +292,12 @@ class Plan:
         self.order: dict[str, int] = {}
         self.nstep = 0
         self.npath = 0
+        # scripted plans (harness/sched_families.py): programs carry "versions" (list of action lists,
+        # selected by prog["version"]) and "fail_versions"; `phases` lists what happens between the build
+        # phases ({"restart", "targets", "dirs", "resources", "edits", "edited", "versions"}); nothing
+        # is mutated at random and the history ends when the script does
+        self.scripted = False
+        self.phases: list[dict] = []
 
     # -- naming
 
@@ -902,7 +913,7 @@ class Sim:
     async def _skip(self, jr: _JobRec):
         rng = self.rng
         step = jr.step
-        ok = rng.random() < 0.6
+        ok = rng.random() < 0.6 or self.plan.scripted
         prog = self.plan.programs.get(step.label)
         if prog is not None and prog.get("edited"):
             ok = False  # the script itself changed: the input digest must differ
@@ -930,6 +941,9 @@ class Sim:
     async def _validate(self, jr: _JobRec):
         step = jr.step
         changed = self.rng.random() < 0.8 or self.last_validate_unchanged.get(step.i, False)
+        prog = self.plan.programs.get(step.label)
+        if prog is not None and prog.get("edited"):
+            changed = True  # the script itself changed: the input digest must differ
         self.last_validate_unchanged[step.i] = not changed
         if not changed:
             self.stats["validate.unchanged"] += 1
@@ -955,6 +969,11 @@ class Sim:
             prog = plan.leaf_program(label)
             plan.programs[label] = prog
         edited = prog.pop("edited", False)
+        if plan.scripted:
+            if "versions" in prog:
+                prog["actions"] = copy.deepcopy(prog["versions"][min(prog.get("version", 0), len(prog["versions"]) - 1)])
+            prog["runs"] += 1
+            return prog
         if edited == "drop_opt_amend":
             gone = set(prog.get("last_dyn_opt", []))
             keep = [a for a in prog["actions"] if not (a[0] == "amend" and gone & set(a[1]["inp"]))]
@@ -987,7 +1006,8 @@ class Sim:
         jr.prog = prog
         jr.actions = copy.deepcopy(prog["actions"])
         first_boot = step.label == BOOT_LABEL and prog["successes"] == 0
-        if self.rng.random() < 0.03 and len(jr.job.inp_hashes) > 0 and not first_boot:
+        if (not self.plan.scripted and self.rng.random() < 0.03 and len(jr.job.inp_hashes) > 0
+                and not first_boot):
             await self._early_fail(jr)
             return
         self._run_started(step.i)  # Executor.execute_job, before _new_run
@@ -1082,6 +1102,8 @@ class Sim:
             await self._amend(jr, act[1])
         elif name in ("hold", "release"):
             await self._hold_release(jr, name)
+        elif name == "wait":
+            return  # the command is busy: this turn passes without a request to the director
         else:
             raise AssertionError(f"unknown action {name}")
 
@@ -1194,6 +1216,8 @@ class Sim:
         wants_defer = jr.wants_defer
         failed = jr.abort and not wants_defer
         if not failed and not wants_defer and rng.random() < prog["p_fail"]:
+            failed = True
+        if not wants_defer and prog.get("version", 0) in prog.get("fail_versions", ()):
             failed = True
         success = not failed and not wants_defer
         kind = "success" if success else ("defer" if wants_defer else "fail")
@@ -1310,7 +1334,12 @@ class Sim:
             return
         # Usually go on with a new phase; stop more readily after a phase in which nothing ran.
         idle = self.stats["tick.dispatch"] == self.dispatched_at_phase_start
-        if self.rng.random() < (0.6 if idle else 0.97):
+        if self.plan.scripted:
+            if self.plan.phases:
+                self._plan_scripted_phase(self.plan.phases.pop(0))
+            else:
+                self.finished = True
+        elif self.rng.random() < (0.6 if idle else 0.97):
             self._plan_new_phase()
         else:
             self.finished = True
@@ -1335,6 +1364,49 @@ class Sim:
                 targets, dirs = choose_targets(rng, self.plan, p_none=0.35)
                 if rng.random() < 0.15:
                     resources = None if resources else RESOURCES
+            ops.append(lambda: self._set_targets(targets, dirs, resources))
+            if snap["draining"]:
+                ops.append(self._undrain)
+            for key in failed:
+                ops.append(lambda key=key: self._mark_pending(key))
+            for path, known in edits:
+                ops.append(lambda path=path, known=known: self._external(path, known))
+            ops.append(self._reconcile)
+        else:
+            for path, known in edits:
+                ops.append(lambda path=path, known=known: self._external(path, known))
+            for key in failed:
+                ops.append(lambda key=key: self._mark_pending(key))
+            if snap["draining"]:
+                ops.append(self._undrain)
+        self.queue.extend(ops)
+        self.woken = True
+        self.last_tick_none = False
+        self.stats["phase.restart" if restart else "phase.watch"] += 1
+
+    def _plan_scripted_phase(self, ph: dict):
+        """The operations between two build phases of a scripted plan, in the order of a restart
+        (`stepup build` again: targets, failed steps, changed files, reconcile_targets) or of the watch
+        phase (changed files, failed steps)."""
+        snap = self.last_snap
+        self.nphase += 1
+        self.dispatched_at_phase_start = self.stats["tick.dispatch"]
+        self.last_validate_unchanged.clear()
+        restart = bool(ph.get("restart", True))
+        failed = [
+            s["key"] for s in snap["steps"]
+            if not s["detached"] and s["state"] == StepState.FAILED.value
+        ]
+        for label, idx in sorted(ph.get("versions", {}).items()):
+            self.plan.programs[label]["version"] = idx
+        for label in ph.get("edited", ()):
+            self.plan.programs[label]["edited"] = True
+        edits = [(path, bool(known)) for path, known in ph.get("edits", ())]
+        ops = []
+        if restart:
+            targets = sorted(ph.get("targets", self.targets))
+            dirs = sorted(ph.get("dirs", self.target_dirs))
+            resources = ph.get("resources", self.resources)
             ops.append(lambda: self._set_targets(targets, dirs, resources))
             if snap["draining"]:
                 ops.append(self._undrain)
@@ -1512,7 +1584,7 @@ class Sim:
                 return {}
             fh = _fh(path, self._next_salt()) if known else FileHash.unknown()
             self.wf.update_file_hashes({path: fh}, cause=HashUpdateCause.EXTERNAL)
-            if known and FileState(row[0]) == FileState.CONFIRMED:
+            if known and FileState(row[0]) == FileState.CONFIRMED and not self.plan.scripted:
                 # A changed static input may be the script of its consumers: "edited plan".
                 sql = (
                     "SELECT snode.label FROM node AS fnode "
